@@ -32,6 +32,10 @@ type MTProto struct {
 	stopRoutines context.CancelFunc // stopping ping, read, etc. routines
 	routineswg   sync.WaitGroup     // WaitGroup for being sure that all routines are stopped
 
+	// reconnect (it's made by reading routine, or by a caller which was asked to migrate) replaces transport
+	// and stopRoutines while other goroutines are sending requests or stopping the client
+	connMutex sync.RWMutex
+
 	// ключ авторизации. изменять можно только через setAuthKey
 	authKey []byte
 
@@ -141,7 +145,9 @@ func (m *MTProto) SetDCList(in map[int]string) {
 
 func (m *MTProto) CreateConnection() error {
 	ctx, cancelfunc := context.WithCancel(context.Background())
+	m.connMutex.Lock()
 	m.stopRoutines = cancelfunc
+	m.connMutex.Unlock()
 
 	err := m.connect(ctx)
 	if err != nil {
@@ -168,8 +174,7 @@ func (m *MTProto) CreateConnection() error {
 const defaultTimeout = 65 * time.Second // 60 seconds is maximum timeouts without pings
 
 func (m *MTProto) connect(ctx context.Context) error {
-	var err error
-	m.transport, err = transport.NewTransport(
+	t, err := transport.NewTransport(
 		m,
 		transport.TCPConnConfig{
 			Ctx:     ctx,
@@ -181,8 +186,11 @@ func (m *MTProto) connect(ctx context.Context) error {
 	if err != nil {
 		return errors.Wrap(err, "can't connect")
 	}
+	m.connMutex.Lock()
+	m.transport = t
+	m.connMutex.Unlock()
 
-	CloseOnCancel(ctx, m.transport)
+	CloseOnCancel(ctx, t)
 	return nil
 }
 
@@ -216,7 +224,10 @@ func (m *MTProto) makeRequest(data tl.Object, expectedTypes ...reflect.Type) (an
 // Disconnect is closing current TCP connection and stopping all routines like pinging, reading etc.
 func (m *MTProto) Disconnect() error {
 	// stop all routines
-	m.stopRoutines()
+	m.connMutex.RLock()
+	stop := m.stopRoutines
+	m.connMutex.RUnlock()
+	stop()
 
 	// TODO: close ALL CHANNELS
 
@@ -288,11 +299,14 @@ func (m *MTProto) startReadingResponses(ctx context.Context) {
 }
 
 func (m *MTProto) readMsg() error {
-	if m.transport == nil {
+	m.connMutex.RLock()
+	t := m.transport
+	m.connMutex.RUnlock()
+	if t == nil {
 		return errors.New("must setup connection before reading messages")
 	}
 
-	response, err := m.transport.ReadMsg()
+	response, err := t.ReadMsg()
 	if err != nil {
 		if e, ok := err.(transport.ErrCode); ok {
 			return &ErrResponseCode{Code: int(e)}
